@@ -52,6 +52,7 @@ func (b bucketMS) maybeCross() {
 		if vsched.Choose(2, "clock-crosses-bucket") == 1 {
 			*b.used = true
 			vclock.Advance(P * time.Second)
+			vsched.GlobalEvent("bucket")
 		}
 	}
 }
